@@ -282,8 +282,13 @@ NM_TMPL = """from pymtl3 import *
 class NMP:
   x: mk_bits({wa})
   y: mk_bits(4)
+@bitstruct
+class NMQ:
+  lo: mk_bits(4)
+  hi: mk_bits(4)
 class NM(Component):
   def construct(s):
+    s.wd = InPort(16); s.bs = [InPort(4) for _ in range(2)]; s.ps = InPort(NMQ)          # a wide operand and slice bases for part selects
     s.a = InPort({wa}); s.b = InPort({wb}); s.c = InPort(1); s.o = OutPort({wo}); s.o1 = OutPort(1); s.os = OutPort(NMP)
     s.tbl = [mk_bits({wb})(1), mk_bits({wb})(2 % (1 << {wb})), mk_bits({wb})(3 % (1 << {wb}))]; s.N = 2          # a table of sized constants and an int
     s.sel = InPort(2); s.itbl = {itbl}          # a table of plain python ints, read with a signal index
@@ -297,7 +302,7 @@ def gen_nearmiss(rng):
   """-> (source, description).  half of them are exactly well-typed, the others off by one somewhere"""
   w = rng.choice([1, 2, 3, 4, 7, 8, 9, 16, 31, 32, 33, 48, 49, 50, 63, 64, 65, 100])
   d = rng.choice([0, 0, 1, -1]) if w > 1 else rng.choice([0, 1])
-  shape = rng.randrange(26)
+  shape = rng.randrange(27)
   itbl = [1, 1, 0, 1]
   wa, wb, wo = w, w + d, w
   lit_k = rng.choice([w - 1, w, w + 1, w, w])
@@ -386,6 +391,17 @@ def gen_nearmiss(rng):
     if rng.random() < 0.7: wa = wo = w = max(1, itbl[0].bit_length()); wb = w
     stmt = rng.choice([f"s.o @= s.itbl[s.sel]", f"s.o @= s.a {op} s.itbl[s.sel]", f"s.o1 @= s.a {cmp_} s.itbl[s.sel]", f"s.o @= s.a & s.itbl[s.sel]"])
     lit = how
+  elif shape == 26:
+    # part selects  x[ base : base + K ]: legal only when BOTH bounds name the very same base; two bases that differ only in an
+    # index, a field or a slice make a slice of run-time width, which the K-bit target refuses
+    K = rng.choice([1, 2, 3, 4]); wa = wb = w = wo = K
+    same = rng.random() < 0.4
+    fam = rng.choice(["index", "field", "slice", "signal"])
+    b1, b2 = {"index": ("s.bs[0]", "s.bs[1]"), "field": ("s.ps.lo", "s.ps.hi"), "slice": ("s.wd[0:4]", "s.wd[1:5]"), "signal": ("s.bs[0]", "s.ps.lo")}[fam]
+    if rng.random() < 0.5: b1, b2 = b2, b1
+    if same: b2 = b1
+    stmt = rng.choice([f"s.o @= s.wd[{b1} : {b2} + {K}]", f"s.o @= s.a ^ s.wd[{b1} : {b2} + {K}]", f"s.o1 @= s.a == s.wd[{b1} : {b2} + {K}]"])
+    lit = ("same-base:" if same else "two-bases:") + fam; d = 0 if same else 1
   elif shape == 24:
     # an element of a table of SIZED constants picked by a constant expression ( s.tbl[s.N - 1] ): it is wb bits wide, full stop
     ix = rng.choice(["s.N - 1", "s.N", "0 + 1", "1"])
@@ -430,14 +446,21 @@ def run_nearmiss(sh, case):
     err = None
     for _ in range(6):
       try:
-        for p in ("a", "b", "c", "sel"):
+        for p in ("a", "b", "c", "sel", "wd"):
           o = getattr(t2, p); o @= Bits(o.nbits, rng.getrandbits(o.nbits))
+        if desc["shape"] == 26:
+          # bases 0..3: base + K stays inside the 16-bit operand
+          t2.wd @= rng.getrandbits(16) & 0xffe0 | rng.randrange(4)
+          t2.bs[0] @= rng.randrange(4); t2.bs[1] @= rng.randrange(4); t2.ps @= mod.NMQ(rng.randrange(4), rng.randrange(4))
         t2.sim_eval_combinational()
       except Exception as e:
         err = e; break
     sh.count("nearmiss_cases"); sh.count("evaluations")
     sh.count("nearmiss_accepted" if accepted else "nearmiss_rejected")
     if desc["shape"] == 25: sh.count("int_table_signal_index:" + str(desc["literal"]) + (":accepted" if accepted else ":rejected"))
+    if desc["shape"] == 26:
+      sh.count("part_select:" + str(desc["literal"]) + (":accepted" if accepted else ":rejected"))
+      if accepted and err is not None and not is_width_error(err): sh.count("part_select_other_error:" + type(err).__name__)
     sh.fp("nm", desc["shape"], desc["delta"], accepted, err is not None and is_width_error(err))
     if accepted and err is not None and is_width_error(err):
       lit = desc["literal"]
